@@ -68,9 +68,10 @@ enum Pred {
     CurIs(Prop),
     /// a hand-written `Filter` that, like `EnvFilter` with span directives, notes the span
     /// callsites it is offered (`callsite_enabled`) and enables exactly while the visible current
-    /// span is one of those and has `Prop`.  Generated only where every callsite is offered to it:
-    /// alone, or as the right operand of a top-level `or` (never under `and` / `not`, whose
-    /// short-circuits legitimately skip an operand).  Reference reading: the same as `CurIs`.
+    /// span is one of those and has `Prop`.  It may sit anywhere in a combinator tree: every
+    /// operand is handed the spans and events of every callsite (`on_new_span`, `enabled`), so
+    /// every operand has to be offered every callsite too (F34: `and` skipped its right operand
+    /// when the left one answered `never`).  Reference reading: the same as `CurIs`.
     CurReg(Prop),
     And(Box<Pred>, Box<Pred>),
     Or(Box<Pred>, Box<Pred>),
@@ -317,8 +318,9 @@ fn gen_pred(rng: &mut Rng, depth: usize) -> Pred {
         return if rng.bool() { noting } else { Pred::Or(Box::new(gen_pred(rng, 1)), Box::new(noting)) };
     }
     let comb = if depth < 2 { 2 } else { 0 };
-    let w = [4u32, 3, 2, 3, 2, 3, 1, comb, comb, comb];
+    let w = [4u32, 3, 2, 3, 2, 3, 1, comb, comb, comb, 1];
     match rng.weighted(&w) {
+        10 => Pred::CurReg(gen_prop(rng)),
         0 => Pred::Level(*rng.pick(&[0usize, 1, 2, 3, 3, 4, 4, 5, 5])),
         1 => {
             let (v, d) = gen_dirs(rng, false);
